@@ -45,7 +45,9 @@ def callees(q):
             name = f.id if isinstance(f, _ast.Name) else (f.attr if isinstance(f, _ast.Attribute) else None)
             if name is None:
                 continue
-            for cand in (f"{mod}.{name}", f"api.{name}", f"api.Converter.{name}", f"api.Record.{name}"):
+            # a bare name is a module-level function; an attribute call is a method (itt.chain(...) is not api.chain)
+            cands = (f"{mod}.{name}", f"api.{name}") if isinstance(f, _ast.Name) else (f"api.Converter.{name}", f"api.Record.{name}")
+            for cand in cands:
                 if cand in spec.CONTRACTS and cand != q:
                     out.add(cand)
         if isinstance(n, _ast.Attribute):
@@ -431,6 +433,10 @@ def run_lemmas():
     t0 = time.time()
     rows = []
     for n, ax in smt.STR_AXIOMS:
+        if n in smt.ASSUMED_AXIOMS:
+            print(f"axiom {n}: ASSUMED (no native counterpart)")
+            rows.append({"axiom": n, "result": "assumed", "solver": None, "s": 0})
+            continue
         r = smt.solve(smt.axiom_proof_query(ax), 30, order=("cvc5", "cvc5-new", "z3-new"), stagger=0.0)
         rows.append({"axiom": n, "result": r["result"], "solver": r["solver"], "s": round(r["s"], 3)})
         print(f"axiom {n}: {r['result']} ({r['solver']}, {r['s']:.2f}s)")
